@@ -96,6 +96,18 @@ func (l *Log) Count(kind string) int {
 	return n
 }
 
+// Contains reports whether any captured output or log record contains sub.
+func (l *Log) Contains(sub string) bool {
+	l.mu.Lock()
+	defer l.mu.Unlock()
+	for i := range l.evs {
+		if strings.Contains(l.evs[i].S, sub) {
+			return true
+		}
+	}
+	return false
+}
+
 func HandleID(t *f1testing.T) string { return fmt.Sprintf("%p", t) }
 
 // ---------------------------------------------------------------- output capture
@@ -208,6 +220,7 @@ type Spec struct {
 	Labels          map[string]string `json:"labels,omitempty"`
 	Interactive     bool              `json:"interactive,omitempty"`
 	Verbose         bool              `json:"verbose,omitempty"`
+	NoIterationMetrics bool           `json:"no_iteration_metrics,omitempty"` // metrics instance built with iteration metrics disabled
 	QuietLogger     bool              `json:"quiet_logger,omitempty"` // the slog handler is disabled for every level
 	Scenario        string            `json:"scenario,omitempty"`
 }
@@ -417,7 +430,7 @@ func Prepare(spec Spec, l *Log, scenarioFn f1testing.ScenarioFn, hooks *Hooks, r
 		r.Registry = reuse.Registry
 	} else {
 		r.Registry = prometheus.NewRegistry()
-		r.Metrics = metrics.NewInstance(r.Registry, true, spec.Labels)
+		r.Metrics = metrics.NewInstance(r.Registry, !spec.NoIterationMetrics, spec.Labels)
 	}
 	var sc *scenarios.Scenarios
 	if hooks != nil && hooks.Registry != nil {
@@ -458,6 +471,12 @@ func Prepare(spec Spec, l *Log, scenarioFn f1testing.ScenarioFn, hooks *Hooks, r
 // Execute prepares and runs Do(ctx), logging the call and return events.
 func Execute(ctx context.Context, spec Spec, l *Log, scenarioFn f1testing.ScenarioFn, hooks *Hooks, reuse *metrics.Metrics) *Run {
 	r, fr := Prepare(spec, l, scenarioFn, hooks, reuse)
+	return Do(ctx, r, fr)
+}
+
+// Do executes a prepared run, logging the call and return events.
+func Do(ctx context.Context, r *Run, fr *run.Run) *Run {
+	l := r.Log
 	if fr == nil {
 		return r
 	}
